@@ -367,13 +367,18 @@ def _query(ctx, op, world, names, model, ci, edges, lat, refused):
     kw = {}
     if adj is not None:
         kw["adjustment_set"] = set(L(v) for v in adj)
+    do_arg = {L(x): names.S(x, s) for x, s in do.items()}
+    do_before = sorted((repr(a), repr(b)) for a, b in do_arg.items())
     try:
-        res = ci.query([L(y) for y in ys], do={L(x): names.S(x, s) for x, s in do.items()}, inference_algo=algo, show_progress=False, **kw)
+        res = ci.query([L(y) for y in ys], do=do_arg, inference_algo=algo, show_progress=False, **kw)
     except Exception as e:
         sig = f"{PROP}:raise:query:{type(e).__name__}:{exc_site(e)}"
         ctx.fail("succeeds", sig, {"exc": exc_brief(e), "do": sorted(do.items()), "y": ys, "adj": adj, "algo": algo, "parents": world["parents"]})
         return
     ctx.checked += 1
+    if sorted((repr(a), repr(b)) for a, b in do_arg.items()) != do_before:
+        # the caller's dict would carry the leaked entries into the next question
+        ctx.fail("original_unchanged", f"{PROP}:query_changed_do_argument", {"before": do_before, "after": sorted((repr(a), repr(b)) for a, b in do_arg.items())})
     try:
         lv, arr = factor_to_logical(res, names, expect_vars=ys)
     except Mismatch as e:
@@ -435,7 +440,7 @@ def _criteria(ctx, op, world, names, ci, edges, lat):
         cand = [v for v in range(n) if v not in (x, y) and v not in lat]
         if not cand:
             return
-        z = [rr.choice(cand)]
+        z = rr.sample(cand, min(len(cand), rr.choice([1, 1, 2, 2, 3])))
         got = bool(ci.is_valid_frontdoor_adjustment_set(L(x), L(y), [L(v) for v in z]))
         want = frontdoor_valid(n, edges, x, y, z)
         ctx.checked += 1
@@ -443,7 +448,7 @@ def _criteria(ctx, op, world, names, ci, edges, lat):
             ctx.fail("criterion", f"{PROP}:frontdoor_test_disagrees", {"x": x, "y": y, "z": z, "got": got, "want": want, "edges": edges})
         for s in ci.get_all_frontdoor_adjustment_sets(L(x), L(y)):
             zz = [names.lab2idx[v] for v in s]
-            if len(zz) == 1 and not frontdoor_valid(n, edges, x, y, zz):
+            if zz and not frontdoor_valid(n, edges, x, y, zz):
                 ctx.fail("criterion", f"{PROP}:enumerated_frontdoor_set_invalid", {"x": x, "y": y, "z": zz, "edges": edges})
                 return
     elif k == "minimal":
